@@ -18,6 +18,12 @@
 #include "naunet_macros.h"
 #include "naunet_ode.h"
 #include "naunet_physics.h"
+#ifdef VERIF_WITH_NAUNET
+#include <cvode/cvode.h>
+#include <string.h>
+#include "naunet.h"
+#include "verif_shim.h"
+#endif
 
 enum { MODE_PASS = 0, MODE_FROZEN = 1, MODE_INJECT = 2 };
 static int g_mode = MODE_PASS;
@@ -160,6 +166,57 @@ int main() {
             free(hd);
             N_VDestroy_Cuda(u); N_VDestroy_Cuda(ud);
             SUNContext_Free(&ctx);
+#ifdef VERIF_WITH_NAUNET
+        } else if (cmd == "script") {
+            // script <n> flag frac flag frac ...   (consumed by successive CVode calls of the mock integrator)
+            int n; in >> n;
+            verif_shim.reset_script();
+            for (int i = 0; i < n; i++) { VerifCVOutcome o; in >> o.flag >> o.frac; verif_shim.cvode_script.push_back(o); }
+            printf("{\"ev\":\"script\",\"cvode\":%zu}\n", verif_shim.cvode_script.size());
+        } else if (cmd == "solve") {
+            // the real generated Naunet::Init / Solve / Finalize of the cusparse method on g_nsys systems
+            double dt; in >> dt;
+            long n = (long)g_nsys * NEQUATIONS;
+            double *ab = (double *)malloc(sizeof(double) * n);                 // exactly nsystem * NEQUATIONS
+            NaunetData *hd = (NaunetData *)malloc(sizeof(NaunetData) * g_nsys);
+            for (long i = 0; i < n; i++) ab[i] = g_y[i];
+            for (int i = 0; i < g_nsys; i++) hd[i] = g_data[i];
+            remove("naunet_error_record.txt");
+            Naunet *nn = new Naunet();
+            int r0 = nn->Init(g_nsys, 1e-20, 1e-5, 500);
+            verif_shim.calls.clear(); verif_shim.cvode_pos = verif_shim.reinit_pos = 0;
+            verif_shim.rhs_calls = verif_shim.jac_calls = 0;
+            int r = nn->Solve(ab, dt, hd);
+            nn->Finalize();
+            delete nn;
+            printf("{\"ev\":\"solve\",\"init\":%d,\"ret\":%d,\"nsystem\":%d,\"dt\":", r0, r, g_nsys); pnum(dt);
+            printf(","); parr("ab", ab, n);
+            int ncv = 0, last_flag = 0, worst = 0;
+            for (size_t i = 0; i < verif_shim.calls.size(); i++) {
+                const VerifCVCall &c = verif_shim.calls[i];
+                if (c.kind == 0) { ncv++; last_flag = c.flag; if (c.flag < worst) worst = c.flag; }
+            }
+            printf(",\"cvode_calls\":%d,\"last_flag\":%d,\"worst_flag\":%d", ncv, last_flag, worst);
+            {
+                FILE *f = fopen("naunet_error_record.txt", "r");
+                std::vector<double> ylog; int unrec = 0; long bytes = 0;
+                if (f) {
+                    char buf[512];
+                    while (fgets(buf, sizeof buf, f)) {
+                        bytes += (long)strlen(buf);
+                        int idx; double v;
+                        if (sscanf(buf, "    y[%d] = %lf;", &idx, &v) == 2) ylog.push_back(v);
+                        if (strstr(buf, "unrecoverable")) unrec = 1;
+                    }
+                    fclose(f);
+                }
+                printf(",\"errfile_bytes\":%ld,\"logged_unrecoverable\":%d,", bytes, unrec); parr("y_logged", ylog.data(), (long)ylog.size());
+            }
+            printf(",\"rhs_calls\":%ld,\"jac_calls\":%ld,\"live\":[%d,%d,%d,%d,%d,%d,%d,%d]}\n", verif_shim.rhs_calls, verif_shim.jac_calls,
+                   verif_shim.live_vectors, verif_shim.live_matrices, verif_shim.live_solvers, verif_shim.live_contexts, verif_shim.live_cvmem,
+                   verif_live_streams, verif_live_handles, verif_live_hostbufs);
+            free(ab); free(hd);
+#endif
         } else if (cmd == "rates") {
             printf("{\"ev\":\"rates\",\"k\":[");
             for (int s = 0; s < g_nsys; s++) {
